@@ -16,7 +16,7 @@ PROPS = {
     "C07": {"profiles": ["struct-flat", "tree", "enum", "shape-change"], "n_quick": 5400},
     "C08": {"profiles": ["trait-params", "tree", "trait-repeat"], "n_quick": 5400},
     "C09": {"profiles": ["enum-prim"], "n_quick": 3600},
-    "C10": {"profiles": ["expr"], "n_quick": 4500},
+    "C10": {"profiles": ["expr", "shape-change"], "n_quick": 4500},
     "C11": {"profiles": ["generics"], "n_quick": 4500},
     "C12": {"profiles": ["traits", "member-instrs", "enum"], "n_quick": 4500},
     "C13": {"profiles": ["struct-flat", "enum", "tree", "trait-params", "unknowns"], "n_quick": 3600, "backends": ["s1", "s2"]},
@@ -447,9 +447,22 @@ def expected_impls(it):
 def oracle_c04(cases, seed, thorough):
     fails = []
     items = []
-    for k, prof in enumerate(["traits", "generics", "struct-flat", "enum", "trait-repeat"]):
+    for k, prof in enumerate(["traits", "generics", "struct-flat", "enum", "trait-repeat", "unknowns"]):
         items += gen.gen_items(prof, seed * 1000 + 600 + k, 200 if not thorough else 2500)
-    srcs = [(it.meta["id"], gen.render(it)) for it in items]
+    # the requested set is the same however the instructions are spelled: a third of the items is written with grouped
+    # `#[o2o(a(..), b(..), allow_unknown, ..)]` lists / single `#[o2o(a(..))]` wrappers
+    r4 = random.Random(seed + 44)
+    srcs = [(it.meta["id"], gen.render(it, gen.speller(r4) if r4.random() < 0.35 else None)) for it in items]
+    # `allow_unknown` is a switch, not an instruction: wherever it is written among the type-level instructions — first,
+    # in the middle or last of one `#[o2o(..)]` list — the requested set stays what it was
+    import copy
+    for it in list(items[:(800 if not thorough else 5000)]):
+        if r4.random() < 0.5 and it.attrs and not any(a.name == "allow_unknown" for a in it.attrs):
+            tw = copy.deepcopy(it)
+            tw.meta["id"] = it.meta["id"] + "+au"
+            tw.attrs.insert(r4.randrange(len(tw.attrs) + 1), gen.Instr("allow_unknown", None, tag=("au", None)))
+            items.append(tw)
+            srcs.append((tw.meta["id"], gen.render(tw, gen.speller(r4, r4.choice(["grouped", "grouped", "random"])))))
     outs, an = L.analyze("s1", srcs)
     n = 0
     for it, (i, s) in zip(items, srcs):
